@@ -1041,6 +1041,14 @@ def filter_rules(A, R, fcl, nhrun):
                     if h in r2:
                         okall = False
                         why = "a job can pass the filling loop without registering any output"
+            if okall:
+                # ... and the filling loop is not optional: no regular path through the function goes around it (a 'fast path' for
+                # graphs without any multi-output job leaves the map empty, and an empty map supersedes nothing)
+                from rules_more import residual_blocks, returns_of
+                errs_ = error_exit_blocks(A, body_nh) | residual_blocks(body_nh)
+                if set(returns_of(body_nh)) & body_nh.reachable(0, {h} | errs_):
+                    okall = False
+                    why = "the loop that fills the map can be skipped altogether: for such a graph no record is ever recognised as superseded"
         if okall:
             # the enumeration must be complete: the nodes of the graph are not, as soon as anything removes nodes from it
             # (jobs pruned at startup stay present jobs: they keep their id and records)
